@@ -613,3 +613,24 @@ PROPS['C07']['suites'] = PROPS['C07']['suites'] + [_HSH_SUITE]
 # C12: the id of a decoded message is stable (does not alias the reader's buffer): codec suite's reuse check
 PROPS['C12']['suites'] = PROPS['C12']['suites'] + [_CODEC_SUITE]
 PROPS['C12']['rule'] = PROPS['C12']['rule'] + ' || codec suite (decoded values re-rendered after the input memory is reused)'
+
+# ---- decoder skeletons: the hand-written decoders' bodies are regenerated from the source (translator/codec.go -> Gen/Codec.lean) and
+# proved, for every receiver and input, to compute exactly the decoder models the property theorems are about (Tie/Codec.lean)
+_SK_THEOREMS = ['FV.Tie.Message_UnmarshalMsg_is_model', 'FV.Tie.Message_DecodeMsg_is_model', 'FV.Tie.MessageExt_UnmarshalMsg_is_model',
+                'FV.Tie.MessageExt_DecodeMsg_is_model', 'FV.Tie.Forward_UnmarshalMsg_is_model', 'FV.Tie.Forward_DecodeMsg_is_model',
+                'FV.Tie.Packed_UnmarshalMsg_is_model', 'FV.Tie.Packed_DecodeMsg_is_model']
+_SK_TEXT = (" Regenerated tie for the hand-written decoders: translator/codec.go re-reads the bodies of (*Message|*MessageExt|*ForwardMessage|"
+            "*PackedForwardMessage).UnmarshalMsg / DecodeMsg from /repo's working tree on every run and emits them statement by statement "
+            "(Gen/Codec.lean; a statement it does not recognise becomes `.unknown`, which evaluates to a panic); T_UnmarshalMsg_is_model / "
+            "T_DecodeMsg_is_model (Tie/Codec.lean) prove that running the regenerated body (Sk.run, Sk/Interp.lean) equals T.unmarshal on every "
+            "receiver and every input, so the theorems about T.unmarshal are theorems about what the source says now.")
+for _p in ('C01', 'C10', 'C13', 'C18'):
+    PROPS[_p]['translator'] = True
+    PROPS[_p]['lean_modules'] = PROPS[_p]['lean_modules'] + ['FluentVerif.Tie.Codec']
+    PROPS[_p]['theorems'] = PROPS[_p]['theorems'] + _SK_THEOREMS
+    PROPS[_p]['explanation'] = PROPS[_p]['explanation'] + _SK_TEXT
+    PROPS[_p]['assumptions'] = PROPS[_p]['assumptions'] + [
+        "translator/codec.go is trusted to render each recognised Go statement as the Sk statement of the same meaning (its rules are "
+        "listed in DESIGN 0.9); the msgp primitives the statements call are the modelled ones"]
+    PROPS[_p]['technique'] = PROPS[_p]['technique'] + ('; the hand-written decoders are additionally tied by translation: their bodies are regenerated from the '
+        'Go source on every run and proved equal (as functions of receiver and input) to the decoder models')
